@@ -3005,9 +3005,16 @@ foamTagFormat(Foam foam)
 			}
 			else if (tag == FOAM_BInt) {
 				/* !! Should not store here. */
+				/*
+				 * The format must hold the count foamToBuffer
+				 * writes: the number of 16-bit places, not
+				 * the number of (wider) places of the BInt.
+				 */
 				BInt	bint;
+				U16	*data;
 				bint= xintStore(bintCopy(foamArgv(foam)[0].bint));
-				si  = bint->placec;
+				bintToPlacevS(bint, &si, &data);
+				bintReleasePlacevS(data);
 				bintFree(bint);
 			}
 			else {
